@@ -199,6 +199,12 @@ func doCall(kind, gen string, stateful bool, st *genState, c gengo.Context, obj 
 			c.Render(snippet.Snippets(func(yield func(snippet.Snippet) bool) {
 				_ = yield(snippet.Block("\nvar _ ")) && yield(snippet.ID(ModPath+"/"+lib+"/util.T")) && yield(snippet.Block("\n"))
 			}))
+			if obj.Name() == "T2" {
+				// ONE template whose two arguments refer to two packages called codec: the argument the TEMPLATE mentions first
+				// is rendered first and gets the short name - not the one that sorts first, not the one a map yields first
+				c.RenderT("\nvar _ = [2]any{new(@Zed), new(@Alpha)}\n",
+					snippet.Arg("Alpha", snippet.ID(ModPath+"/lib10/codec.T")), snippet.Arg("Zed", snippet.ID(ModPath+"/lib9/codec.T")))
+			}
 			if strings.HasSuffix(pkgPath, "/p") && obj.Name() == "T1" {
 				// p's file refers to BOTH packages called util (one of them gets a longer local name there); q's file refers to
 				// lib2/util alone and calls it util - whatever p's file had to call it
